@@ -153,7 +153,7 @@ func short(v any) string {
 func Worker(shard, n int, tier string) *engine.Result {
 	res := engine.NewResult(Prop)
 	f := replica.NewFix()
-	base := replica.Templates()
+	base := append(replica.Templates(), replica.StateShapeTemplates()...)
 	tmpl := append(append([]replica.Template{}, base...), replica.GovTemplates()...)
 	ps := plans(tier, tmpl, len(base))
 	res.Extra["histories"] = len(ps)
